@@ -36,7 +36,7 @@ type CLIWorld struct {
 	Disk0 []DiskEntry `json:"disk0"` // initial durable state
 	Sched SchedConfig `json:"sched"`
 	Real  bool        `json:"real,omitempty"` // run the unrewritten binary (no simulator record)
-	StdoutKind string `json:"stdout_kind,omitempty"` // "" = pipe, "file" = a regular file outside the sandbox
+	StdoutKind string `json:"stdout_kind,omitempty"` // "" = pipe, "file" = a regular file outside the sandbox, "devfull" = /dev/full (every write fails with ENOSPC), "pty" = a pseudo terminal in raw mode
 	Env   []string    `json:"env,omitempty"`
 }
 
@@ -86,6 +86,8 @@ func snapshot(root string, withData bool) (map[string]TreeEntry, error) {
 			e.Target, _ = os.Readlink(p)
 		case fi.IsDir():
 			e.Kind = "dir"
+		case fi.Mode()&os.ModeNamedPipe != 0:
+			e.Kind = "fifo"
 		default:
 			e.Kind = "file"
 			data, err := os.ReadFile(p)
@@ -116,6 +118,11 @@ func (sc *Scratch) RunCLI(w *CLIWorld) (*CLIOutcome, error) {
 		return nil, infraf("sandbox: %v", err)
 	}
 	defer os.RemoveAll(base)
+	type fifoFeed struct {
+		path string
+		data []byte
+	}
+	var fifos []fifoFeed
 	for _, d := range w.Disk0 {
 		p := filepath.Join(root, d.Path)
 		switch d.Kind {
@@ -128,6 +135,13 @@ func (sc *Scratch) RunCLI(w *CLIWorld) (*CLIOutcome, error) {
 			if err := os.Symlink(d.Target, p); err != nil {
 				return nil, infraf("disk0: %v", err)
 			}
+		case "fifo":
+			// a named pipe fed by the harness (process substitution, /dev/stdin style input)
+			_ = os.MkdirAll(filepath.Dir(p), 0o755)
+			if err := syscall.Mkfifo(p, 0o644); err != nil {
+				return nil, infraf("disk0 fifo: %v", err)
+			}
+			fifos = append(fifos, fifoFeed{p, d.Data})
 		default:
 			_ = os.MkdirAll(filepath.Dir(p), 0o755)
 			mode := os.FileMode(0o644)
@@ -149,6 +163,25 @@ func (sc *Scratch) RunCLI(w *CLIWorld) (*CLIOutcome, error) {
 	if err := os.MkdirAll(cwd, 0o755); err != nil {
 		return nil, infraf("sandbox cwd: %v", err)
 	}
+	for _, ff := range fifos {
+		go func(ff fifoFeed) {
+			// blocks until the program opens the pipe for reading
+			f, err := os.OpenFile(ff.path, os.O_WRONLY, 0)
+			if err != nil {
+				return
+			}
+			_, _ = f.Write(ff.data)
+			f.Close()
+		}(ff)
+	}
+	defer func() {
+		// unblock feeders whose pipe was never opened
+		for _, ff := range fifos {
+			if f, err := os.OpenFile(ff.path, os.O_RDONLY|syscall.O_NONBLOCK, 0); err == nil {
+				f.Close()
+			}
+		}
+	}()
 	before, err := snapshot(root, true)
 	if err != nil {
 		return nil, infraf("snapshot: %v", err)
@@ -179,6 +212,42 @@ func (sc *Scratch) RunCLI(w *CLIWorld) (*CLIOutcome, error) {
 	cmd.Stdout = &so
 	cmd.Stderr = &se
 	var outFile *os.File
+	var ptyMaster *os.File
+	var ptyData chan []byte
+	if w.StdoutKind == "devfull" {
+		df, err := os.OpenFile("/dev/full", os.O_WRONLY, 0)
+		if err != nil {
+			return nil, infraf("/dev/full: %v", err)
+		}
+		defer df.Close()
+		cmd.Stdout = df
+	}
+	if w.StdoutKind == "pty" {
+		m, sl, err := openPty()
+		if err != nil {
+			// no pseudo terminals in this sandbox: fall back to a pipe
+			w.StdoutKind = ""
+			goto noPty
+		}
+		ptyMaster = m
+		cmd.Stdout = sl
+		defer sl.Close()
+		defer m.Close()
+		ptyData = make(chan []byte, 1)
+		go func() {
+			var acc []byte
+			buf := make([]byte, 65536)
+			for {
+				n, err := m.Read(buf)
+				acc = append(acc, buf[:n]...)
+				if err != nil {
+					break
+				}
+			}
+			ptyData <- acc
+		}()
+	}
+noPty:
 	if w.StdoutKind == "file" {
 		if outFile, err = os.Create(filepath.Join(base, "stdout.txt")); err != nil {
 			return nil, infraf("stdout file: %v", err)
@@ -212,6 +281,19 @@ func (sc *Scratch) RunCLI(w *CLIWorld) (*CLIOutcome, error) {
 	if outFile != nil {
 		if data, err := os.ReadFile(filepath.Join(base, "stdout.txt")); err == nil {
 			out.Stdout = data
+		}
+	}
+	if ptyMaster != nil {
+		// closing our copy of the slave end makes the master read return EIO once drained
+		if sl, ok := cmd.Stdout.(*os.File); ok {
+			sl.Close()
+		}
+		select {
+		case data := <-ptyData:
+			out.Stdout = data
+		case <-time.After(5 * time.Second):
+			ptyMaster.Close()
+			out.Stdout = <-ptyData
 		}
 	}
 	if out.After, err = snapshot(root, true); err != nil {
